@@ -23,13 +23,17 @@ PROP = dict(
                    'word of the right table - the recursive-mapping trick is proved, also for an inactive table swapped into slot 511), '
                    'translate_correct (Translate = the hardware walk, for every address), map_refines_partial / unmap_refines / '
                    'unmap_unmapped (exact post-state: one word changes, hardware view of the page, flush list, no allocation), '
+                   'map_new_level_step (any level: the allocated frame is linked Present|RW and exactly that frame is cleared - the Memset '
+                   'address resolves to it through the window), map_new_leaf_table (whole Map creating one level: hardware view, new '
+                   'table empty except the entry), map_alloc_failure (allocator empty: error and the state is unchanged), '
                    'other_pages_unchanged (frame rule for the hardware walk), inactive_leaves_active_bit_identical_partial, region_pages, '
                    'setframe_needs_40_bits (negative witness D13). The model is tied to the Go code by regenerated constants (a changed '
                    'shift or mask breaks the proofs) and by a differential run of the real code over a software MMU with a full '
                    'physical-memory comparison after every call; the property statement is evaluated by an independent oracle on the '
                    'implementation\'s page tables.',
-        level_note='Partial: the theorems about Map cover the case where the three upper table levels of the page exist; creation of new '
-                   'levels (allocate, link, zero), allocator failure, and the induction over whole histories are NOT proved - they are '
+        level_note='Partial: the whole-operation theorems about Map cover zero or one new table level and allocator failure at the first missing '
+                   'level; two/three new levels in one call (only the per-level step is proved), failure after partial allocation, the frame '
+                   'rule across new levels, inactive tables that grow, and the induction over whole histories are NOT proved - they are '
                    'carried by the correspondence run (model = code on every generated history, including allocator failure at every '
                    'point and inactive tables) and by the oracle clauses map-exact-entry, others-unchanged, new-level-empty, '
                    'alloc-error-iff, fail-no-translation-change, inactive-leaves-active-identical, region-maps-exact-pages. '
